@@ -532,3 +532,10 @@ pub fn replay(case: &Value) -> Vec<Violation> {
     with_curve!(case.base.st.curve, G, run_case::<G>(0, &case, &mut st));
     st.violations
 }
+
+/// Apply a deviation to a statement and commitment list (used by C18 for the
+/// recorded wrong statements).  Returns the verifier-side view.
+pub fn deviate<G: AffineRepr>(case: &Case, commitments: &[G]) -> Option<(Statement, Vec<G>)> {
+    let (_p, v, ctf, _m) = apply_dev::<G>(&case.base.st, &case.dev)?;
+    Some((v, ctf(commitments)))
+}
